@@ -2,11 +2,19 @@ use crate::common::Ctx;
 use crate::report::Report;
 
 pub mod c01;
+pub mod c02;
+pub mod c03;
+pub mod c04;
+pub mod c05;
 
 /// (report, rule, explanation, exhaustive-subspace flag)
 pub fn run(prop: &str, ctx: &Ctx) -> Option<(Report, &'static str, &'static str, bool)> {
     Some(match prop {
         "C01" => (c01::run(ctx), c01::RULE, "", true),
+        "C02" => (c02::run(ctx), c02::RULE, "", true),
+        "C03" => (c03::run(ctx), c03::RULE, "", true),
+        "C04" => (c04::run(ctx), c04::RULE, "", true),
+        "C05" => (c05::run(ctx), c05::RULE, "", true),
         _ => return None,
     })
 }
